@@ -728,6 +728,14 @@ Error BaseBuilder::embed_const_pool(const Label& label, const ConstPool& pool) {
     return report_error(make_error(Error::kInvalidLabel));
   }
 
+  // Refuse before appending the align node - a failed call must not leave nodes behind.
+  LabelNode* label_node;
+  ASMJIT_PROPAGATE(label_node_of(Out(label_node), label));
+
+  if (ASMJIT_UNLIKELY(label_node->is_active())) {
+    return report_error(make_error(Error::kLabelAlreadyBound));
+  }
+
   ASMJIT_PROPAGATE(align(AlignMode::kData, uint32_t(pool.alignment())));
   ASMJIT_PROPAGATE(bind(label));
 
